@@ -1,6 +1,7 @@
 import HcipyVerif.Model.Proto
 import HcipyVerif.Model.Fraunhofer
 import HcipyVerif.Model.FraunhoferPipe
+import HcipyVerif.Model.FraunhoferObj
 
 /-! Line-protocol front end of the C03 model (Fraunhofer bookkeeping).
 
@@ -20,6 +21,15 @@ C03 lens fwd|bwd cheaper emu [jx,jy] [kx,ky]   -> ok method=fft|mft val=c:t   th
                                                   `choose detectFix`, then `fastForward2`/`mftForward` (or backward),
                                                   then the norm factor) on a unit impulse; value c·exp(2πi·t)
 C03 lens-sep cheaper [jx,jy] [kx,ky] [X…] [Y…] -> same, forward, separated non-regular focal grid
+C03 obj fwd|bwd lam cheaper mat emu stokes|- [kx,ky] ncomp [jx,jy,amp]… cur | sep [X…] [Y…] | pts [X…] [Y…] [w…]
+                                               -> ok method=… lam=… stokes=…|- vals=c:t;c:t;…
+                                                  the propagator *object* of the current session (`LensProp.forward/backward`)
+                                                  on a whole wavefront record: tensor component t = amp_t × unit impulse at
+                                                  sample (jx,jy)_t (fwd: pupil sample, result at focal sample k; bwd: the reverse;
+                                                  a point-list grid uses [k,0]); wavelength and Stokes vector of the result
+C03 alias f0|f1|c<i> …                         -> ok arrays=n ids=field:stokes|-;…   ndarray identities of every wavefront a call history
+                                                  creates (f0/f1: new user wavefront without/with Stokes vector, propagated;
+                                                  c<i>: wavefront number i of the log propagated again)
 ```
 -/
 namespace HcipyVerif.Driver.C03
@@ -27,6 +37,9 @@ open HcipyVerif.Proto HcipyVerif.Fraunhofer
 
 structure St where
   session : Option Session := none
+  /-- the session as constructed and the `focal_length` assignments since (for the object ops) -/
+  session0 : Option Session := none
+  sets : List FocalSpec := []
   setup : Option Setup := none
   focal : Option RegGrid := none
 
@@ -71,26 +84,95 @@ def setupInfo (s : Setup) : String :=
   let nf := normFactor s
   s!"ok lamf={showRat (lamf s)} norm={showRat nf.1}:{showRat nf.2} uvscale={showRat (uvScaleTurns s)} wp={showRat s.pupil.weight}"
 
+def natOfRat? (q : Rat) : Option Nat := if q.den = 1 ∧ 0 ≤ q.num then some q.num.toNat else none
+
+/-- `[jx,jy,amp]` → `(jy, jx, amp)` -/
+def parseComp? (s : String) : Option (Nat × Nat × Rat) :=
+  match parseRatList? s with
+  | some [jx, jy, a] => do let jx ← natOfRat? jx; let jy ← natOfRat? jy; pure (jy, jx, a)
+  | _ => none
+
+def parseStokes? (s : String) : Option (Option (Rat × Rat × Rat × Rat)) :=
+  if s == "-" then some none else
+  match parseRatList? s with
+  | some [a, b, c, d] => some (some (a, b, c, d))
+  | _ => none
+
+def showStokes : Option (Rat × Rat × Rat × Rat) → String
+  | none => "-"
+  | some (a, b, c, d) => showRatList [a, b, c, d]
+
+def parseFocalGrid? (cur : Option RegGrid) : List String → Option (Option FocalSpecGrid)
+  | ["cur"] => some (cur.map .regular)
+  | ["sep", xs, ys] => do let xs ← parseRatList? xs; let ys ← parseRatList? ys; pure (some (.separated xs ys))
+  | ["pts", xs, ys, ws] => do
+    let xs ← parseRatList? xs; let ys ← parseRatList? ys; let ws ← parseRatList? ws
+    pure (if xs.length == ys.length && xs.length == ws.length then some (.points xs ys ws) else none)
+  | _ => none
+
+def parseCall? (s : String) : Option Call :=
+  if s == "f0" then some (.fresh false) else if s == "f1" then some (.fresh true)
+  else if s.startsWith "c" then (s.drop 1).toNat?.map .chain else none
+
+def showRef (w : WfRef) : String :=
+  s!"{w.field}:" ++ (match w.stokes with | some i => toString i | none => "-")
+
+/-- the `obj` op: runs `LensProp.forward/backward` on the impulse wavefront -/
+def runObj (ss : Session) (sets : List FocalSpec) (fg : FocalSpecGrid) (dir : Dir) (lam : Rat) (cheaper mat emu : Bool)
+    (stokes : Option (Rat × Rat × Rat × Rat)) (k : Nat × Nat) (comps : List (Nat × Nat × Rat)) : Option String :=
+  match lensObjAfter ss sets fg cheaper mat emu with
+  | none => none
+  | some P =>
+    if lam * P.focalLength lam = 0 then none else
+    let wf := impulseWf comps lam stokes
+    let out := match dir with
+      | .fwd => P.forward scalarsQ wf
+      | .bwd => P.backward scalarsQ wf
+    let vals := (List.range comps.length).map fun t => showVal (out.field t k.2 k.1)
+    some s!"ok method={showMethod (P.plan lam).m} lam={showRat out.wavelength} stokes={showStokes out.stokes} vals={";".intercalate vals}"
+
 def step (st : St) : List String → St × String
   | ["reset"] => ({}, "ok")
+  | "obj" :: dir :: lam :: cheaper :: mat :: emu :: stokes :: k :: ncomp :: rest =>
+    match (if dir == "fwd" then some Dir.fwd else if dir == "bwd" then some Dir.bwd else none), parseRat? lam,
+      parseFlag? cheaper, parseFlag? mat, parseFlag? emu, parseStokes? stokes, (parseNatList? k).bind pair?, ncomp.toNat? with
+    | some dir, some lam, some cheaper, some mat, some emu, some stokes, some k, some n =>
+      if rest.length < n then (st, "bad-op") else
+      match (rest.take n).mapM parseComp?, parseFocalGrid? st.focal (rest.drop n) with
+      | some comps, some fg =>
+        match st.session0, fg with
+        | some ss, some fg =>
+          match runObj ss st.sets fg dir lam cheaper mat emu stokes k comps with
+          | some r => (st, r)
+          | none => (st, "err value")
+        | _, _ => (st, "err value")
+      | _, _ => (st, "bad-op")
+    | _, _, _, _, _, _, _, _ => (st, "bad-op")
+  | "alias" :: calls =>
+    match calls.mapM parseCall? with
+    | some cs =>
+      let (_, log) := runCalls ⟨0⟩ [] cs
+      (st, s!"ok arrays={(log.flatMap WfRef.ids).eraseDups.length} ids=" ++ ";".intercalate (log.map showRef))
+    | none => (st, "bad-op")
   | ["setup", lam, f, d, n, z] =>
     match parseRat? lam, parseRat? f, parseRatList? d, parseNatList? n, parseRatList? z with
     | some lam, some f, some d, some n, some z =>
       if lam * f = 0 || !okLen d.length d n z then (st, "err value") else
       let s : Setup := { lam := lam, f := f, pupil := { delta := d, dims := n, zero := z } }
       let nf := normFactor s
-      ({ setup := some s, focal := none },
+      ({ st with setup := some s, focal := none },
         s!"ok lamf={showRat (lamf s)} norm={showRat nf.1}:{showRat nf.2} uvscale={showRat (uvScaleTurns s)} wp={showRat s.pupil.weight}")
     | _, _, _, _, _ => (st, "bad-op")
   | "session" :: d :: n :: z :: spec =>
     match parseRatList? d, parseNatList? n, parseRatList? z, parseSpec? spec with
     | some d, some n, some z, some f =>
       if !okLen d.length d n z then (st, "err value") else
-      ({ session := some { pupil := { delta := d, dims := n, zero := z }, focalLength := f } }, "ok")
+      ({ session := some { pupil := { delta := d, dims := n, zero := z }, focalLength := f },
+         session0 := some { pupil := { delta := d, dims := n, zero := z }, focalLength := f }, sets := [] }, "ok")
     | _, _, _, _ => (st, "bad-op")
   | "setf" :: spec =>
     match st.session, parseSpec? spec with
-    | some s, some f => ({ st with session := some (s.setFocalLength f) }, "ok")
+    | some s, some f => ({ st with session := some (s.setFocalLength f), sets := st.sets ++ [f] }, "ok")
     | none, some _ => (st, "err value")
     | _, none => (st, "bad-op")
   | ["at", lam] =>
